@@ -9,6 +9,7 @@ import (
 	"io"
 	"os"
 	"os/exec"
+	"runtime"
 	"strconv"
 	"strings"
 	"syscall"
@@ -25,9 +26,9 @@ import (
 // (it would leave a spinning goroutine holding the index read lock), so the
 // sort=map queries of this group are executed by a child process (the same
 // test binary, VERIF_C08_CHILD=<mode>) that serves one query per stdin line;
-// when the child has burnt hangCPU of CPU time on one query without answering
-// it gets SIGQUIT (the Go runtime then prints all goroutine stacks, from
-// which the spinning perkeep function is read) and a new child is started.
+// when a query has burnt hangCPU of CPU time without returning, the child
+// reads the spinning perkeep function from its own goroutine stacks, reports
+// "hung" and exits, and a new child is started.
 
 var mapLimits = []int{0, 1, 2, 3, 4, 5, 6, -1}
 
@@ -39,6 +40,8 @@ const (
 )
 
 type childReply struct {
+	Hung   bool     `json:"hung"`
+	Site   string   `json:"site"`
 	Status string   `json:"status"`
 	Source string   `json:"source"`
 	Panic  string   `json:"panic"`
@@ -70,7 +73,30 @@ func childMain(mode string) {
 			out.Flush()
 			continue
 		}
-		r := w.query(t.build(w), search.MapSort, lim)
+		// the query runs in its own goroutine; this one watches the process CPU time
+		done := make(chan qres, 1)
+		c := t.build(w)
+		go func() { done <- w.query(c, search.MapSort, lim) }()
+		var r qres
+		cpu0 := selfCPU()
+		tick := time.NewTicker(5 * time.Millisecond)
+	wait:
+		for {
+			select {
+			case r = <-done:
+				break wait
+			case <-tick.C:
+				if selfCPU()-cpu0 >= hangCPU {
+					buf := make([]byte, 4<<20)
+					buf = buf[:runtime.Stack(buf, true)]
+					b, _ := json.Marshal(childReply{Status: "hung", Hung: true, Site: spinSite(string(buf))})
+					fmt.Fprintln(out, "REPLY "+string(b))
+					out.Flush()
+					os.Exit(0) // the spinning goroutine cannot be stopped any other way
+				}
+			}
+		}
+		tick.Stop()
 		rep := childReply{Status: r.status(), Source: r.source, Panic: r.panic}
 		if r.err != nil {
 			rep.Err = r.err.Error()
@@ -138,6 +164,12 @@ func (c *child) kill() {
 	c.cmd.Wait()
 }
 
+func selfCPU() time.Duration {
+	var ru syscall.Rusage
+	syscall.Getrusage(syscall.RUSAGE_SELF, &ru)
+	return time.Duration(ru.Utime.Nano() + ru.Stime.Nano())
+}
+
 // cpu returns the CPU time (user+system) the child has used so far.
 func (c *child) cpu() time.Duration {
 	b, err := os.ReadFile(fmt.Sprintf("/proc/%d/stat", c.cmd.Process.Pid))
@@ -178,6 +210,10 @@ func (c *child) ask(w *W, t *tree, limit int) (r qres, hung bool, site string, e
 			if err := json.Unmarshal([]byte(l[6:]), &rep); err != nil {
 				return r, false, "", err
 			}
+			if rep.Hung { // the child saw its query use hangCPU without returning, dumped its stacks and exited
+				c.cmd.Wait()
+				return r, true, rep.Site, nil
+			}
 			r.source, r.panic = rep.Source, rep.Panic
 			if rep.Err != "" {
 				r.err = errors.New(rep.Err)
@@ -188,17 +224,9 @@ func (c *child) ask(w *W, t *tree, limit int) (r qres, hung bool, site string, e
 			}
 			return r, false, "", nil
 		case <-tick.C:
-			if c.cpu()-cpu0 >= hangCPU {
-				c.cmd.Process.Signal(syscall.SIGQUIT)
-				done := make(chan struct{})
-				go func() { c.cmd.Wait(); close(done) }()
-				select {
-				case <-done:
-				case <-time.After(10 * time.Second):
-					c.cmd.Process.Kill()
-					<-done
-				}
-				return r, true, spinSite(c.stderr.String()), nil
+			if c.cpu()-cpu0 >= 20*hangCPU { // the child's own watchdog should have answered long ago
+				c.kill()
+				return r, false, "", fmt.Errorf("child used %v of CPU without any reply", 20*hangCPU)
 			}
 			if time.Since(t0) > hangWall {
 				c.kill()
@@ -215,7 +243,7 @@ func tail(s string, n int) string {
 	return s
 }
 
-// spinSite finds, in a SIGQUIT goroutine dump, the innermost perkeep function of the goroutine that is inside Handler.Query.
+// spinSite finds, in a dump of all goroutine stacks, the innermost perkeep function of the goroutine that is inside Handler.Query.
 func spinSite(dump string) string {
 	for _, g := range strings.Split(dump, "\n\n") {
 		if !strings.Contains(g, "search.(*Handler).Query") {
@@ -281,7 +309,7 @@ func (m *mapRunner) runCase(c mapCase, g genRes) (*finding, error) {
 		}
 		sc.Outcome(fmt.Sprintf("hang|%s|%s|%s|matches=%d", site, c.t.shape(), lim, nMatch))
 		x := ck.finding(c.t, "C08|hang|"+site+"|sort=map|"+lim,
-			fmt.Sprintf("Query used %v of CPU without returning (normal: microseconds); SIGQUIT shows it spinning in %s, holding the index read lock; %d blobs match", hangCPU, site, nMatch), "map", c.limit)
+			fmt.Sprintf("Query used %v of CPU without returning (normal: microseconds); its goroutine stacks show it spinning in %s, holding the index read lock; %d blobs match", hangCPU, site, nMatch), "map", c.limit)
 		return &x, nil
 	}
 	sc.Outcome(fmt.Sprintf("%s|%s|limit%d|%s|n=%d/%d", r.source, c.t.shape(), c.limit, r.status(), len(r.refs), nMatch))
